@@ -103,7 +103,7 @@ class VM:
                 if val[0] == "s":
                     parts.append("%s = %s" % (key, rust_str(val[1])))
                 elif val[0] == "i":
-                    parts.append("%s = %d" % (key, val[1]))
+                    parts.append("%s = %s" % (key, val[2] if len(val) > 2 else "%d" % val[1]))     # ("i", value[, source spelling])
                 elif val[0] == "b":
                     parts.append("%s = %s" % (key, "true" if val[1] else "false"))
                 else:
